@@ -1,1 +1,59 @@
-def main : IO Unit := pure ()
+import NfcVerif.Model.Des
+import NfcVerif.Model.Auth
+open NfcVerif NfcVerif.Des NfcVerif.Mac NfcVerif.Auth
+
+def C3 : Cipher := tdesBytes
+
+def hexes (ws : List String) : Option (List Bytes) := ws.mapM parseHex
+
+def showBool : Py Bool → String := showPy (fun b => if b then "true" else "false")
+
+def handle (line : String) : String :=
+  match line.splitOn " " with
+  | op :: args =>
+    match op, args, hexes args with
+    | "des.enc", _, some [k, b] => "ok " ++ toHex (desBytes k b)
+    | "des.dec", _, some [k, b] => "ok " ++ toHex (desDecBytes k b)
+    | "tdes.enc", _, some [k, b] => "ok " ++ toHex (tdesBytes k b)
+    | "tdes.dec", _, some [k, b] => "ok " ++ toHex (tdesDecBytes k b)
+    | "mac", _, some [d, k, iv, f] => showPy toHex (generateMac C3 d k iv (f != [0]))
+    | "sk", _, some [k, rc] => showPy toHex (sessionKey C3 k rc)
+    | "lite.cmds", _, some [idm, pw, rc] =>
+      showPy (fun (a, b, c) => toHex a ++ " " ++ toHex b ++ " " ++ toHex c)
+        (liteProtectKeyCmd idm pw >>= fun p => liteChallengeCmd idm rc >>= fun a =>
+          readCmd idm [0x82, 0x81] >>= fun b => .ok (p, a, b))
+    | "lite.auth", _, some [idm, pw, rc, r1, r2] =>
+      showPy (fun (r : Bool × Option Session) => match r with
+          | (true, some s) => "true " ++ toHex s.sk ++ " " ++ toHex s.iv
+          | (true, none) => "true"
+          | (false, _) => "false")
+        (liteAuthenticate C3 idm pw rc r1 r2)
+    | "lite.rwmcmd", _, some [idm, blocks] => showPy toHex (readCmd idm (blocks ++ [0x81]))
+    | "lite.rwm", _, some [idm, sk, iv, blocks, rsp] =>
+      showPy (fun (r : Option Bytes) => match r with | none => "none" | some d => toHex d)
+        (readWithMac C3 idm (if sk = [] then none else some ⟨sk, iv⟩) blocks rsp)
+    | "lites.auth", _, some [idm, pw, rc, r1, r2, r3, r4, r5] =>
+      showBool (liteSAuthenticate C3 idm pw rc r1 r2 r3 r4 r5)
+    | "lites.wwm", _, some [idm, sk, iv, data, block, rspW] =>
+      showPy toHex (writeWithMacCmd C3 idm (if sk = [] then none else some ⟨sk, iv⟩) data (beNat block) rspW)
+    | "ntag.cmd", _, some [pw] => showPy (fun k => toHex (ntagAuthCmd k)) (ntagKey pw)
+    | "ntag.auth", [_, e], some [pw, _] =>
+      if e.startsWith "e" then
+        match (e.drop 1).toString.toInt? with
+        | some n => showBool (ntagAuthenticate pw (.error (.tagCmd n)))
+        | none => "bad-op"
+      else match parseHex e with
+        | some r => showBool (ntagAuthenticate pw (.ok r))
+        | none => "bad-op"
+    | "ntag.protect", _, some [pw, rp, pf, cfg] =>
+      showPy (fun ps => " ".intercalate (ps.map toHex)) (ntagProtectPages pw (rp != [0]) (beNat pf) cfg)
+    | "ntag.tag", _, some [pwd, pack, cmd] => "ok " ++ toHex (NtagTag.respond ⟨pwd, pack⟩ cmd)
+    | "tag.mac", _, some [ck, rc, data] => "ok " ++ toHex (LiteTag.mac C3 ⟨ck, rc, []⟩ (chunks8 data))
+    | "tag.maca", _, some [ck, rc, wcnt, block, data] =>
+      "ok " ++ toHex (LiteTag.macA C3 ⟨ck, rc, wcnt⟩ (beNat block) data)
+    | "tag.frame", _, some [ck, rc, idm, n, data] =>
+      "ok " ++ toHex (LiteTag.readFrame C3 ⟨ck, rc, []⟩ idm (beNat n) data)
+    | _, _, _ => "bad-op"
+  | _ => "bad-op"
+
+def main : IO Unit := runDriver handle
